@@ -217,7 +217,7 @@ def explore(ctx, drv, n, per_case, gen=gen_case, graph_corr=True, reserve_s=25, 
                 fmat.cmp_materialize(ctx, drv, case.mb, res["q"], res.get("cr"))
             if pipe_corr:
                 out = ("ok", res["out"]) if res["status"] == "ok" else ("raise", res.get("exc"))
-                fmat.cmp_pipeline(ctx, drv, case.mb, res["q"], res.get("cr"), out)
+                res["model_resp"] = fmat.cmp_pipeline(ctx, drv, case.mb, res["q"], res.get("cr"), out)
         try:
             per_case(case, res)
         except common.Timeout:
